@@ -140,3 +140,5 @@ Definition key_case (num_samples observed : nat) : bool := Nat.eqb (key_advances
 (* the sampler's mass_matrix_sqrt entry against its inverse_mass_matrix entry (relative tolerance for the
    floating-point power) *)
 Definition mass_case (tol s im : Q) : bool := close tol (s * s * im) 1.
+
+Definition merge_guard_case (turning diverging merged : bool) : bool := Bool.eqb (merge_guard turning diverging) merged.
